@@ -201,12 +201,16 @@ def validate(trace_path, max_rounds=8):
         shutil.rmtree(d, ignore_errors=True)
 
 
-def design():
+def design(tier="quick"):
     """Exhaustive TLC check of the batch protocol: today's scheme keeps its invariants for 2 and 3 members with every subset of
     pre-existing targets and up to 3 failing calls; two plausible slips must violate them."""
     out = {}
-    for n, pre in ((2, "{}"), (2, "{1}"), (2, "{2}"), (2, "{1, 2}"), (3, "{1, 3}")):
-        r = vlib.run_tlc("Txn", "Txn.cfg", workers=2, timeout=600, consts={"N": str(n), "Pre": pre, "MaxFaults": "3", "Variant": '"asis"'})
+    mf = "3" if tier == "quick" else "30"     # 30 exceeds the number of calls of any run: every set of failing calls
+    cases = ((2, "{}"), (2, "{1}"), (2, "{2}"), (2, "{1, 2}"), (3, "{1, 3}"))
+    if tier != "quick":
+        cases += ((3, "{}"), (3, "{2}"), (3, "{1, 2, 3}"))
+    for n, pre in cases:
+        r = vlib.run_tlc("Txn", "Txn.cfg", workers=2, timeout=600, consts={"N": str(n), "Pre": pre, "MaxFaults": mf, "Variant": '"asis"'})
         out["asis N=%d Pre=%s" % (n, pre)] = {"holds": r.ok, "violated": r.violated, "distinct_states": r.distinct}
         if not r.ok:
             raise vlib.HarnessError("Txn.tla design check fails for N=%d Pre=%s: %s" % (n, pre, r.violated))
